@@ -88,6 +88,20 @@ class CallMixin:
                 return self.call_named(fr, st, ins, site, fn, [rv] + list(args), None, cont, spawn)
         c = self.iface_contract(ins['iface'], m)
         if c is None:
+            # unexported package interface: only package types can be stored in it (closed world) -> dispatch per type
+            iname = self.shortfn(ins['iface'])
+            if 'netpoll' in ins['iface'] and iname[:1].islower() and '.' not in iname:
+                impls = [t for t in self.p.methods if self.p.implements(t, ins['iface']) and self.p.method(t, m)]
+                impls = [t for t in impls if t.startswith('*') or ('*' + t) not in impls]
+                if impls:
+                    self.assumptions.add('unexported interface %s: dynamic type is one of %s (closed world)' % (iname, ', '.join(self.shortfn(t) for t in impls)))
+                    for t in impls:
+                        cnd = recv.tag == self.p.typeid(t)
+                        if not self.feasible(st, cnd): continue
+                        s2 = st.copy(); s2.assume(cnd)
+                        self.call_named(fr.fork(), s2, ins, site, self.p.method(t, m), [recv.val] + list(args), None, cont, spawn)
+                    return
+        if c is None:
             self.assumptions.add('interface call %s.%s on an unknown dynamic type: no contract, assumed to return arbitrary values and to leave netpoll state unchanged' % (self.shortfn(ins['iface']), m))
             return cont(st, self.fresh_results(st, ins.get('sig')))
         return self.apply_contract(fr, st, c, None, [recv] + list(args), ins, site, cont, sig=ins.get('sig'), recv_iface=True)
@@ -124,7 +138,8 @@ class CallMixin:
         """(param names+types, result names+types) for a contract"""
         if g is not None:
             ps = [(p['name'], p['type']) for p in g.params]
-            rs = [(r['name'] or ('result' if len(g.results) == 1 else 'result%d' % i), r['type']) for i, r in enumerate(g.results)]
+            rn = c.flags.get('results', '').split() if c is not None else []
+            rs = [((rn[i] if i < len(rn) else None) or r['name'] or ('result' if len(g.results) == 1 else 'result%d' % i), r['type']) for i, r in enumerate(g.results)]
             fv = [(p['name'], p['type']) for p in g.freevars]
             return ps, rs, fv
         _, d = self.p.under(sig) if sig else (None, {})
@@ -158,8 +173,12 @@ class CallMixin:
             for t in c.flags.get('takes', '').split(','):
                 t = t.strip()
                 if t:
-                    for key, idx, srt in self.ev_lval(cparse.parse_expr(t), env):
-                        st.wr(key, idx, BoolVal(False), srt)
+                    cond = BoolVal(True)
+                    if ' if ' in t:
+                        t, _, ctxt = t.partition(' if ')
+                        cond = self.ev_bool(cparse.parse_expr(ctxt), env)
+                    for key, idx, srt in self.ev_lval(cparse.parse_expr(t.strip()), env):
+                        st.wr(key, idx, If(cond, BoolVal(False), st.rd(key, idx, srt)), srt)
             return cont(st, None)
         old = st.copy()
         oldenv = {'st': old, 'old': None, 'vars': dict(vars), 'fr': None}
